@@ -2,22 +2,22 @@
 //
 // One op line is a whole HISTORY over a pool of values; step n creates pool entry n (a value or a marker):
 //
-//   C08 hist <step> <step> …
+//	C08 hist <step> <step> …
 //
-//   constructors   (lit <val>)          WrapValues / WrapHash over a slice of exact capacity
-//                  (parse <val>)        types.Parse of the literal's text: built by the parser through BasicCollector
-//                                       (AddArray(0) + append ⇒ spare capacity by Go's growth)
-//                  (coll <cap> <val>)   BasicCollector.AddArray(cap)/AddHash(cap) fed by hand ⇒ cap-len spare cells
-//                  (mnew)               NewMutableHash()
-//   List ops       (add r <elem>) (addall r s) (delete r <elem>) (deleteall r s) (slice r i j) (map r <fn>)
-//                  (select r <pred>) (reject r <pred>) (sort r) (flatten r) (unique r) (at r i)
-//   OrderedMap ops (merge r s) (keys r) (values r) (entries r) (mapvalues r <fn>) (selectpairs r <pred>)
-//                  (rejectpairs r <pred>) (mput r <elem> <elem>) (mputall r s)
-//   observers      (ptype r) (dtype r) (tostring r) (tokey r) (equals r s) (ser r) (walk r)
+//	constructors   (lit <val>)          WrapValues / WrapHash over a slice of exact capacity
+//	               (parse <val>)        types.Parse of the literal's text: built by the parser through BasicCollector
+//	                                    (AddArray(0) + append ⇒ spare capacity by Go's growth)
+//	               (coll <cap> <val>)   BasicCollector.AddArray(cap)/AddHash(cap) fed by hand ⇒ cap-len spare cells
+//	               (mnew)               NewMutableHash()
+//	List ops       (add r <elem>) (addall r s) (delete r <elem>) (deleteall r s) (slice r i j) (map r <fn>)
+//	               (select r <pred>) (reject r <pred>) (sort r) (flatten r) (unique r) (at r i)
+//	OrderedMap ops (merge r s) (keys r) (values r) (entries r) (mapvalues r <fn>) (selectpairs r <pred>)
+//	               (rejectpairs r <pred>) (mput r <elem> <elem>) (mputall r s)
+//	observers      (ptype r) (dtype r) (tostring r) (tokey r) (equals r s) (ser r) (walk r)
 //
-//   r, s, n   pool indices of earlier steps;  <elem> ::= <val> | (v n)  (the pool value n itself as element)
-//   <val>     (i N) (s xHEX) (u) (a <val>*) (h (<val> <val>)*) (e <val> <val>)
-//   <fn>      id inc wrap k1          <pred>  all none isint eq1 iscoll
+//	r, s, n   pool indices of earlier steps;  <elem> ::= <val> | (v n)  (the pool value n itself as element)
+//	<val>     (i N) (s xHEX) (u) (a <val>*) (h (<val> <val>)*) (e <val> <val>)
+//	<fn>      id inc wrap k1          <pred>  all none isint eq1 iscoll
 //
 // After EVERY step every live pool value is snapshotted (program-format text + hash key + element walk) and compared
 // with its snapshot at creation: the direct predicate of C08.  Out = the final contents of all pool entries.
@@ -29,6 +29,7 @@ import (
 	"math/rand"
 	"strconv"
 	"strings"
+	"unicode/utf8"
 
 	"verif/harness/core"
 	"verif/harness/sx"
@@ -162,7 +163,7 @@ func snapshot(v px.Value) string {
 	}
 	if strings.Contains(w, "(deep)") {
 		// the value (now) contains itself: ToKey would recurse until the Go stack overflows, which no recover catches
-		return "cyclic | " + w[:200]
+		return "cyclic | " + w[:min(len(w), 200)]
 	}
 	if err := safely(func() { k = sx.Str(string(px.ToKey(v))).Atom }); err != nil {
 		k = "panic"
@@ -629,6 +630,107 @@ func (h *hist) step(c px.Context, st sx.Sexp) (res *entry, recv int, args []int)
 	panic(fmt.Errorf("bad step %s", st))
 }
 
+// ---- well-formedness of a step (the twin of `opOf` in lean/Driver/C08.lean): a malformed step makes the line bad-op ----
+
+func isInt(s sx.Sexp) bool { _, err := s.AsInt(); return err == nil && !s.IsList }
+
+func isNat(s sx.Sexp) bool {
+	if s.IsList || s.Atom == "" {
+		return false
+	}
+	for _, c := range s.Atom {
+		if c < '0' || c > '9' {
+			return false
+		}
+	}
+	return true
+}
+
+func isVal(e sx.Sexp) bool {
+	a := e.Args()
+	switch e.Tag() {
+	case "i":
+		return len(a) == 1 && isInt(a[0])
+	case "s":
+		if len(a) != 1 {
+			return false
+		}
+		b, err := a[0].AsBytes()
+		return err == nil && utf8.Valid(b)
+	case "u":
+		return len(a) == 0
+	case "e":
+		return len(a) == 2 && isVal(a[0]) && isVal(a[1])
+	case "a":
+		for _, k := range a {
+			if !isVal(k) {
+				return false
+			}
+		}
+		return true
+	case "h":
+		for _, kv := range a {
+			if !kv.IsList || len(kv.List) != 2 || !isVal(kv.List[0]) || !isVal(kv.List[1]) {
+				return false
+			}
+		}
+		return true
+	}
+	return false
+}
+
+func isElem(e sx.Sexp) bool {
+	if e.Tag() == "v" {
+		return len(e.Args()) == 1 && isNat(e.Args()[0])
+	}
+	return isVal(e)
+}
+
+func wellFormed(st sx.Sexp) bool {
+	if !st.IsList || st.Tag() == "" {
+		return false
+	}
+	a := st.Args()
+	shape := func(kinds ...func(sx.Sexp) bool) bool {
+		if len(a) != len(kinds) {
+			return false
+		}
+		for i, k := range kinds {
+			if !k(a[i]) {
+				return false
+			}
+		}
+		return true
+	}
+	isFn := func(s sx.Sexp) bool { return !s.IsList && mapper(s.Atom) != nil }
+	isPred := func(s sx.Sexp) bool { return !s.IsList && predicate(s.Atom) != nil }
+	switch st.Tag() {
+	case "lit", "parse":
+		return shape(isVal)
+	case "coll":
+		return shape(isInt, isVal)
+	case "mnew":
+		return shape()
+	case "add", "delete":
+		return shape(isInt, isElem)
+	case "addall", "deleteall", "merge", "mputall", "equals":
+		return shape(isInt, isInt)
+	case "mput":
+		return shape(isInt, isElem, isElem)
+	case "slice":
+		return shape(isInt, isInt, isInt)
+	case "at":
+		return shape(isInt, isInt)
+	case "map", "mapvalues":
+		return shape(isInt, isFn)
+	case "select", "reject", "selectpairs", "rejectpairs":
+		return shape(isInt, isPred)
+	case "sort", "flatten", "unique", "keys", "values", "entries", "ptype", "dtype", "tostring", "tokey", "walk", "ser":
+		return shape(isInt)
+	}
+	return false
+}
+
 func contains(xs []int, x int) bool {
 	for _, y := range xs {
 		if y == x {
@@ -647,10 +749,12 @@ func exec(c px.Context, op string, steps []sx.Sexp) core.Result {
 	fail := ""
 	failClass := ""
 	derived := false
-	for n, st := range steps {
-		if !st.IsList || st.Tag() == "" {
+	for _, st := range steps {
+		if !wellFormed(st) {
 			return core.Result{Out: "bad-op", Pred: "FAIL harness-bad-op " + st.String()}
 		}
+	}
+	for n, st := range steps {
 		e, recv, args := h.step(c, st)
 		if e.v != nil {
 			if err := safely(func() { e.cont = walk(e.v) }); err != nil {
@@ -738,12 +842,12 @@ func sortStrings(xs []string) {
 
 // ---- generators ---------------------------------------------------------------------------------------------------
 
-func iv(n int64) sx.Sexp           { return sx.T("i", sx.Int(n)) }
-func sv(s string) sx.Sexp          { return sx.T("s", sx.Str(s)) }
-func av(xs ...sx.Sexp) sx.Sexp     { return sx.T("a", xs...) }
-func kv(k, v sx.Sexp) sx.Sexp      { return sx.L(k, v) }
-func hv(xs ...sx.Sexp) sx.Sexp     { return sx.T("h", xs...) }
-func n(i int) sx.Sexp              { return sx.Int(int64(i)) }
+func iv(n int64) sx.Sexp                  { return sx.T("i", sx.Int(n)) }
+func sv(s string) sx.Sexp                 { return sx.T("s", sx.Str(s)) }
+func av(xs ...sx.Sexp) sx.Sexp            { return sx.T("a", xs...) }
+func kv(k, v sx.Sexp) sx.Sexp             { return sx.L(k, v) }
+func hv(xs ...sx.Sexp) sx.Sexp            { return sx.T("h", xs...) }
+func n(i int) sx.Sexp                     { return sx.Int(int64(i)) }
 func st(op string, xs ...sx.Sexp) sx.Sexp { return sx.T(op, xs...) }
 
 // the steps that may follow when the pool has `size` entries; elems = the element alphabet
@@ -946,10 +1050,10 @@ func gen(g *core.G) {
 		ctor  sx.Sexp
 		elems []sx.Sexp
 	}{
-		{st("coll", n(4), av(iv(1), iv(2))), elems},                 // array with two spare cells
+		{st("coll", n(4), av(iv(1), iv(2))), elems},                     // array with two spare cells
 		{st("coll", n(3), hv(kv(iv(1), iv(1)), kv(iv(2), iv(2)))), hel}, // hash with one spare cell
-		{st("parse", av(iv(2), av(iv(1)), iv(2))), elems},           // parser-built, nested, duplicate
-		{st("lit", av(iv(1))), elems},                               // exact capacity
+		{st("parse", av(iv(2), av(iv(1)), iv(2))), elems},               // parser-built, nested, duplicate
+		{st("lit", av(iv(1))), elems},                                   // exact capacity
 	}
 	for bi, b := range bases {
 		enumerate(g, []sx.Sexp{b.ctor}, 3, b.elems, true)
